@@ -2,8 +2,8 @@
 (* Generator harness: TLC walks the workload 1..Count, ItemAt(n) (operators  *)
 (* of the instantiating Gen_* module, built from the specification's own     *)
 (* operators) one state per item and emits each as a JSON line.  The driver  *)
-(* runs HDW_SLICES processes in parallel, process HDW_SLICE walking its      *)
-(* contiguous share.                                                         *)
+(* runs HDW_SLICES processes in parallel, process HDW_SLICE walking every     *)
+(* HDW_SLICES-th item.                                                       *)
 LOCAL INSTANCE Naturals
 LOCAL INSTANCE Sequences
 LOCAL INSTANCE HdwIO
@@ -12,11 +12,11 @@ CONSTANT Count, ItemAt(_)
 VARIABLE n
 LOCAL Slice  == IF "HDW_SLICE" \in DOMAIN IOEnv THEN atoi(IOEnv.HDW_SLICE) ELSE 0
 LOCAL Slices == IF "HDW_SLICES" \in DOMAIN IOEnv THEN atoi(IOEnv.HDW_SLICES) ELSE 1
-LOCAL Lo == (Slice * Count) \div Slices
-LOCAL Hi == ((Slice + 1) * Count) \div Slices
-GenInit == n = Lo
-GenNext == n < Hi /\ n' = n + 1
+\* process k takes the items k+1, k+1+Slices, ... (round robin, so that expensive families are shared);
+\* n is the item just emitted, Slice - Slices + 1 .. 0 before the first
+GenInit == n = Slice + 1 - Slices
+GenNext == n + Slices <= Count /\ n' = n + Slices
 GenSpec == GenInit /\ [][GenNext]_n
 \* checked as an invariant: emission happens exactly once per distinct state
-GenEmit == n > Lo => Emit("workload", [ItemAt(n) EXCEPT !.i = n])
+GenEmit == n >= 1 => Emit("workload", [ItemAt(n) EXCEPT !.i = n])
 =============================================================================
